@@ -475,8 +475,65 @@ fn big_owned_regions() {
     out::count("big_owned_regions", keep.len() as i128);
 }
 
+/// Address queries are `&self` methods of a shared, immutable collection: several threads asking
+/// about addresses in DIFFERENT regions at the same time get the same answers as one thread
+/// (an answer must not depend on what another thread asked last).
+fn concurrent_lookups(seed: u64) {
+    use std::sync::atomic::{AtomicU64, Ordering};
+    let nreg = 6usize;
+    let regs: Vec<(GuestAddress, usize)> = (0..nreg).map(|i| (GuestAddress(0x10_0000 * (i as u64 + 1)), 0x1000 * (i + 1))).collect();
+    let gm = std::sync::Arc::new(GuestMemoryMmap::<()>::from_ranges(&regs).expect("layout"));
+    let bases: Vec<usize> = gm.iter().map(|r| r.as_ptr() as usize).collect();
+    let bad = std::sync::Arc::new(AtomicU64::new(0));
+    let witness = std::sync::Arc::new(std::sync::Mutex::new(None::<String>));
+    let total = std::sync::Arc::new(AtomicU64::new(0));
+    let nthreads = 8;
+    let iters = if cfg!(miri) { 50 } else { 150_000 };
+    let mut hs = vec![];
+    for t in 0..nthreads {
+        let (gm, bad, witness, total, regs, bases) = (gm.clone(), bad.clone(), witness.clone(), total.clone(), regs.clone(), bases.clone());
+        hs.push(std::thread::spawn(move || {
+            let mut r = Rng::new(seed, "c02-conc", t as u64);
+            for _ in 0..iters {
+                // mostly "its own" region, sometimes any, sometimes a hole
+                let i = if r.chance(3, 4) { t % regs.len() } else { r.usize_below(regs.len()) };
+                let (s, l) = regs[i];
+                let hole = r.chance(1, 8);
+                let off = if hole { l as u64 + r.below(64) } else { r.below(l as u64) };
+                let a = GuestAddress(s.0 + off);
+                let fr = gm.find_region(a).map(|x| x.start_addr().0);
+                let tr = gm.to_region_addr(a).map(|(x, o)| (x.start_addr().0, o.0));
+                let hp = gm.get_host_address(a).ok().map(|p| p as usize);
+                let ok = if hole {
+                    fr.is_none() && tr.is_none() && hp.is_none() && !gm.address_in_range(a)
+                } else {
+                    fr == Some(s.0) && tr == Some((s.0, off)) && hp == Some(bases[i] + off as usize) && gm.address_in_range(a) && gm.check_range(a, 1)
+                };
+                if !ok && bad.fetch_add(1, Ordering::Relaxed) == 0 {
+                    *witness.lock().unwrap() = Some(format!("thread {} addr {:#x} (region {} hole {}): find_region {:x?} to_region_addr {:x?} host {:x?}", t, a.0, i, hole, fr, tr, hp));
+                }
+                total.fetch_add(1, Ordering::Relaxed);
+            }
+        }));
+    }
+    for h in hs {
+        if h.join().is_err() {
+            out::viol("C02/concurrent/panic-in-a-lookup-thread", J::Null);
+        }
+    }
+    if bad.load(Ordering::Relaxed) > 0 {
+        out::viol("C02/concurrent/answer-differs-from-the-layout", jobj! {"wrong_answers" => bad.load(Ordering::Relaxed), "first" => witness.lock().unwrap().clone().unwrap_or_default()});
+    }
+    out::count("concurrent_lookups", total.load(Ordering::Relaxed) as i128);
+    out::key("concurrent-lookups|8-threads|6-regions", true);
+    out::eval(total.load(Ordering::Relaxed));
+}
+
 pub fn run(args: &Args) {
     out::set_quiet_cases(true);
+    if args.shard().0 == 1 % args.shard().1 {
+        concurrent_lookups(args.seed());
+    }
     if args.shard().0 == 0 && !cfg!(miri) {
         if let Err(p) = guarded(big_owned_regions) {
             out::viol(&format!("C02/panic/big-owned/{}", panic_sig(&p)), J::s(p));
